@@ -83,7 +83,7 @@ def build(case):
         slots = {0: [], 1: [], 2: []}
         for (i, j, form, slot, dot) in by_src[k]:
             p = import_path(i, j, layout, dot)
-            if [i, j, form] in infn and P(j) == "full":
+            if [i, j, form] in infn and P(j) in ("full", "late"):
                 # the import statement sits inside a function of the importer and runs when that function is called
                 if form == "module":
                     slots[slot].append("ld_%d_%d = fn() -> int {\n\timport %s\n\treturn %s.bump_%d()\n}" % (i, j, p, M(j), j))
@@ -91,7 +91,7 @@ def build(case):
                     slots[slot].append("ld_%d_%dn = fn() -> int {\n\timport bump_%d, get_%d from %s\n\treturn bump_%d()\n}" % (i, j, j, j, p, j))
                 slots[slot].append("print \"m%d->m%d \" + ld_%d_%d%s()" % (i, j, i, j, "" if form == "module" else "n"))
                 continue
-            if [i, j, form] in [x[:3] for x in inloop] and P(j) == "full" and form in ("module", "names"):
+            if [i, j, form] in [x[:3] for x in inloop] and P(j) in ("full", "late") and form in ("module", "names"):
                 # the import statement is a direct statement of a LOOP body that runs 0, 1 or 2 times: it executes once per pass,
                 # after the statements in front of it - and not at all when the loop does not run
                 k_ = [x[3] for x in inloop if x[:3] == [i, j, form]][0]
@@ -100,7 +100,7 @@ def build(case):
                 head = "from 0 to %d, lp_%d_%d {" % (k_, i, j) if (i + j) % 2 == 0 else "lw_%d_%d = 0\nwhile lw_%d_%d < %d {\n\tlw_%d_%d = lw_%d_%d + 1" % (i, j, i, j, k_, i, j, i, j)
                 slots[slot].append("%s\n\tprint \"m%d pass\"\n\t%s\n\tprint \"m%d->m%d \" + %s\n}" % (head, i, imp, i, j, call))
                 continue
-            if P(j) != "full":
+            if P(j) not in ("full", "late"):
                 slots[slot].append("import %s" % p)
                 slots[slot].append("print \"m%d->m%d\"%s" % (i, j, (" + %s.tag_%d" % (M(j), j)) if P(j) == "const" else ""))
             elif form == "module":
@@ -123,6 +123,20 @@ def build(case):
             lines += ["hidden_%d = %d" % (k, 100 + k)]
         elif k > 0 and P(k) == "const":
             lines += ["hidden_%d = %d" % (k, 100 + k), "export const tag_%d: int = %d" % (k, 7 * k)]
+        elif k > 0 and P(k) == "late":
+            # "declare first, export at the bottom": the variable is captured by the module's closures BEFORE it is exported under
+            # its own name, and the module keeps using it afterwards - one variable for the module, its closures and every importer
+            lines += ["hidden_%d = %d" % (k, 100 + k),
+                      "counter_%d = %d" % (k, start(k)),
+                      "bump_%d = fn() -> int {\n\tmodify counter_%d = counter_%d + 1\n\treturn counter_%d\n}" % (k, k, k, k),
+                      "get_%d = fn() -> int {\n\treturn counter_%d + hidden_%d - %d\n}" % (k, k, k, 100 + k),
+                      "items_%d: [int...] = [%d]" % (k, k),
+                      "export counter_%d: int = counter_%d" % (k, k),
+                      "export bump_%d: fn() -> int = bump_%d" % (k, k),
+                      "export get_%d: fn() -> int = get_%d" % (k, k),
+                      "export items_%d: [int...] = items_%d" % (k, k),
+                      "export type T_%d int" % k,
+                      "counter_%d = counter_%d + 0" % (k, k)]
         elif k > 0:
             lines += ["hidden_%d = %d" % (k, 100 + k),
                       "export counter_%d: int = %d" % (k, start(k)),
@@ -136,7 +150,7 @@ def build(case):
         lines += slots[2]
         if k == 0:
             for (i, j, form, slot, dot) in by_src[0]:
-                if P(j) != "full" or [i, j, form] in infn or [i, j, form] in [x[:3] for x in inloop]:
+                if P(j) not in ("full", "late") or [i, j, form] in infn or [i, j, form] in [x[:3] for x in inloop]:
                     continue
                 if form == "type":
                     continue
@@ -161,7 +175,7 @@ def build(case):
             for (i, j, form, s, dot) in by_src[k]:
                 if s != slot:
                     continue
-                lp = [x[3] for x in inloop if x[:3] == [i, j, form]] if (P(j) == "full" and form in ("module", "names")) else []
+                lp = [x[3] for x in inloop if x[:3] == [i, j, form]] if (P(j) in ("full", "late") and form in ("module", "names")) else []
                 if lp:
                     for _ in range(lp[0]):
                         out.append("m%d pass" % i)
@@ -174,7 +188,7 @@ def build(case):
                 if j not in done:
                     done.add(j)
                     run_module(j)
-                if P(j) != "full":
+                if P(j) not in ("full", "late"):
                     out.append("m%d->m%d%s" % (i, j, str(7 * j) if P(j) == "const" else ""))
                     continue
                 if form == "type":
@@ -186,7 +200,7 @@ def build(case):
                 out.append("m%d:%d" % (k, slot + 1))
         if k == 0:
             for (i, j, form, s, dot) in by_src[0]:
-                if P(j) != "full" or [i, j, form] in infn or form == "type" or [i, j, form] in [x[:3] for x in inloop]:
+                if P(j) not in ("full", "late") or [i, j, form] in infn or form == "type" or [i, j, form] in [x[:3] for x in inloop]:
                     continue
                 out.append("final m%d %d" % (j, counter[j]))
                 if form == "module":
@@ -424,6 +438,12 @@ def enumerated(tier, seed):
                     for first in ("run", "compile"):
                         for layout in ("flat", "alt"):
                             cases.append({"n": n, "edges": edges, "layout": layout, "edit": k, "first": first})
+        # the same graphs with one module (each in turn) written "declare first, export at the bottom"
+        for es in all_dags(n):
+            for form in ("module", "names"):
+                edges = [(i, j, form, b % 3, False) for b, (i, j) in enumerate(es)]
+                for j in range(1, n):
+                    cases.append({"n": n, "edges": edges, "layout": "flat", "profiles": {str(j): "late"}})
         # the same graphs with a module that exports nothing / only a constant (module-form imports only)
         for es in all_dags(n):
             for j in range(1, n):
